@@ -125,7 +125,7 @@ func verifyMapState(h *host.Host, eng host.Engine, st storgen.MapState) string {
 
 // runMapHistory executes the history on one engine against the model. It returns a
 // violation message ("" when everything agrees) and the history facts.
-func runMapHistory(hist storgen.MapHistory, eng host.Engine, onExec func(i int, e storgen.MapExec, x storgen.MapExpect, r host.Result, h *host.Host) string) (string, mapFacts) {
+func runMapHistory(hist storgen.MapHistory, eng host.Engine, hooks *execHooks) (string, mapFacts) {
 	var f mapFacts
 	h, msg := mapBaseHost(eng)
 	if msg != "" {
@@ -134,10 +134,21 @@ func runMapHistory(hist storgen.MapHistory, eng host.Engine, onExec func(i int, 
 	m := &storgen.MapModel{}
 	for i, e := range hist.Execs {
 		x := m.Step(e)
+		info := execInfo{idx: i, src: e.Source(), script: e.Script, expectFail: x.Fail != "", commits: x.Commits, mutatedFirst: x.Mutations > 0}
+		if hooks != nil && hooks.before != nil {
+			if msg := hooks.before(info, h, eng); msg != "" {
+				return fmt.Sprintf("[%s] exec %d: %s\n--- source:\n%s", eng, i, msg, e.Source()), f
+			}
+		}
 		var r host.Result
 		digest, before := h.Ledger.Digest(), h.Ledger.Clone()
 		if e.Script {
+			snap := h.Snapshot()
 			r = h.Script(e.Source(), nil, host.Options{Engine: eng})
+			if d := h.Ledger.Digest(); d != digest {
+				return fmt.Sprintf("[%s] exec %d: a script changed the ledger: %v\n--- source:\n%s", eng, i, h.Ledger.Diff(before), e.Source()), f
+			}
+			h.Restore(snap) // contract code changed by a script lives in the host, not in the ledger
 		} else {
 			st := e.Step()
 			r = h.Tx(st.Source, nil, mapSigners, host.Options{Engine: eng})
@@ -155,8 +166,8 @@ func runMapHistory(hist storgen.MapHistory, eng host.Engine, onExec func(i int, 
 		} else if d := h.Ledger.Digest(); d != digest {
 			return fmt.Sprintf("[%s] exec %d (%s, model outcome %q) changed the ledger: %v\n--- source:\n%s", eng, i, kindOfExec(e), x.Fail, h.Ledger.Diff(before), e.Source()), f
 		}
-		if onExec != nil {
-			if msg := onExec(i, e, x, r, h); msg != "" {
+		if hooks != nil && hooks.after != nil {
+			if msg := hooks.after(info, r, h, eng); msg != "" {
 				return fmt.Sprintf("[%s] exec %d: %s\n--- source:\n%s", eng, i, msg, e.Source()), f
 			}
 		}
@@ -217,7 +228,7 @@ func classifyMapHistory(rec *evid.Rec, hist storgen.MapHistory) {
 func TestC22(t *testing.T) {
 	rec := evid.Start(t, "C22", "model-steered random histories of ≤25 executions (transactions signed by 3 accounts / scripts, 1–5 operations each out of "+
 		"save, load<T>, copy<T>, borrow<T>+read, check<T>, type(at:), storagePaths, forEachStored (with early stop), move between accounts) over 3 accounts × 4 paths, "+
-		"7 value types × 12 type arguments (exact, AnyStruct, AnyResource, {I}, {RI}, [AnyStruct], unrelated), ~12% of transactions end in panic; every log line, error type and, after "+
+		"7 value types × 12 type arguments (exact, AnyStruct, AnyResource, {I}, {RI}, [AnyStruct], unrelated), ~12% of transactions abort with a panic at the end or midway; every log line, error type and, after "+
 		"every execution, a ledger-only verification script (storagePaths, type, value, check<T> for all T on all 12 cells) are compared with a Go map model on both engines. "+
 		"Non-trivial: the history contains a transaction that failed/aborted after mutating storage, a type-mismatching access, and touches ≥ 2 accounts. Distinct by history.")
 
@@ -270,8 +281,8 @@ func describeMapHistory(h storgen.MapHistory) []string {
 			ops = append(ops, o.String())
 		}
 		tail := ""
-		if e.Abort {
-			tail = "; panic"
+		if e.Inject != nil {
+			tail = "; " + e.Inject.String()
 		}
 		res := "ok"
 		if x.Fail != "" {
